@@ -4,6 +4,7 @@ Oracle: every group x every subset of supplied members x every read order on rea
 import itertools
 import json
 import math
+import numpy as np
 import random
 import time
 
@@ -34,9 +35,25 @@ def _pass(vals):
     return RollPass(label="p", roll=Roll(groove=CircularOvalGroove(depth=8e-3, r1=6e-3, r2=40e-3), nominal_radius=0.16), gap=2e-3, **vals)
 
 
+_N = [0]
+
+
 def _pass_roll(vals):
     from pyroll.core import RollPass, Roll, CircularOvalGroove
-    rp = RollPass(label="p", roll=Roll(groove=CircularOvalGroove(depth=8e-3, r1=6e-3, r2=40e-3), nominal_radius=0.16, **vals), gap=2e-3)
+    _N[0] += 1
+    if _N[0] % 2:
+        rp = RollPass(label="p", roll=Roll(groove=CircularOvalGroove(depth=8e-3, r1=6e-3, r2=40e-3), nominal_radius=0.16, **vals), gap=2e-3)
+        return rp.roll
+    # the template roll is looked at first (representations, has_value probes, a derived read), the pass is built from it, and the members are
+    # supplied on the pass's own roll afterwards: what the template merely remembered is not a supplied value of the pass's roll
+    from common import look_at
+    template = Roll(groove=CircularOvalGroove(depth=8e-3, r1=6e-3, r2=40e-3), nominal_radius=0.16)
+    for n in ('nominal_diameter', 'nominal_radius', 'min_radius', 'rotational_frequency', 'surface_velocity', 'working_velocity'):
+        template.has_value(n)
+    look_at(template, html=False)
+    rp = RollPass(label="p", roll=template, gap=2e-3)
+    for k, v in vals.items():
+        setattr(rp.roll, k, v)
     return rp.roll
 
 
@@ -160,6 +177,28 @@ def run_group(chk, g, seen):
                         if not chk.failures:
                             chk.fail('invented', f"{name}: with only {list(S)} supplied, {m} reads {r[1]}", data)
                         return
+                # the supplied values carried by 0-d float arrays (mutable numbers): reading the members leaves them as they were and gives the same answers
+                if S and order == tuple(members):
+                    arrs = {m: np.array(float(base[m])) for m in S}
+                    try:
+                        obj0 = factory(dict(arrs))
+                        res0 = {}
+                        for m in order:
+                            try:
+                                res0[m] = ('ok', float(_get(obj0, m)))
+                            except AttributeError:
+                                res0[m] = ('attr',)
+                            except Exception as e:      # noqa
+                                res0[m] = ('exc', type(e).__name__)
+                    except Exception as e:      # noqa
+                        res0 = {'<construction>': ('exc', type(e).__name__)}
+                    changed = {m: float(a) for m, a in arrs.items() if float(a) != float(base[m])}
+                    differs = [m for m in res if res0.get(m, ('?',))[0] != res[m][0] or (res[m][0] == 'ok' and not math.isclose(res0[m][1], res[m][1], rel_tol=1e-9, abs_tol=1e-15))]
+                    if changed or differs:
+                        if not chk.failures:
+                            chk.fail('input-type', f"{name}: {list(S)} supplied as 0-d float arrays: after reading {list(order)} the caller's arrays hold {changed or 'the same values'}; "
+                                     f"members answering differently from the float case: {differs[:3]} ({[res0.get(m) for m in differs[:3]]} vs {[res[m] for m in differs[:3]]})", data)
+                        return
                 # retraction: the supplied members are deleted again and the remembered values re-evaluated - the object must now answer like
                 # one that was never supplied anything (no stale, no resurrected value)
                 # (not for the cycle-guarded pairs length/duration and the velocities: there re-evaluation is an iteration step in which the remembered
@@ -243,6 +282,32 @@ def reevaluation_chain(chk):
                         f"duration {float(t.duration)} - duration x velocity must be the length", {'group': 'transport length/duration', 'changed': 'in_profile.velocity'})
 
 
+def looked_at_template(chk):
+    """a roll that was merely looked at (representations, has_value probes of derived members) before it is handed to a pass: the pass's own roll, given
+    another radius, derives what it derives for an untouched template - and consistently"""
+    from pyroll.core import Roll, RollPass, RoundGroove
+    from common import look_at
+    mk = lambda: Roll(groove=RoundGroove(r1=1e-3, depth=15e-3, usable_width=31e-3), nominal_radius=0.15, rotational_frequency=1.5)      # noqa
+    members = ('nominal_radius', 'nominal_diameter', 'rotational_frequency', 'surface_velocity', 'working_radius', 'working_velocity')
+
+    def through_pass(template):
+        rp = RollPass(label="stand", roll=template, gap=2e-3)       # (kept alive: the roll refers to its pass weakly)
+        roll = rp.roll
+        roll.nominal_radius = 0.2
+        return {m: float(getattr(roll, m)) for m in members}
+    looked = mk()
+    look_at(looked, html=False)
+    for m in members:
+        looked.has_value(m)
+    a, b = through_pass(mk()), through_pass(looked)
+    chk.cov['evaluations'] += 2
+    bad = [m for m in members if not math.isclose(a[m], b[m], rel_tol=1e-12)]
+    if bad or not math.isclose(b['nominal_diameter'], 0.4, rel_tol=1e-12) or not math.isclose(b['surface_velocity'], 2 * math.pi * 1.5 * 0.2, rel_tol=1e-12):
+        return chk.fail('observer-effect', f"a roll (nominal_radius 0.15, 1.5 rev/s) looked at before it was handed to a pass; the pass's roll then given nominal_radius 0.2: "
+                        f"{ {m: b[m] for m in (bad or ['nominal_diameter', 'surface_velocity'])} }, with an untouched template {{ {', '.join(f'{m}: {a[m]}' for m in (bad or ['nominal_diameter', 'surface_velocity']))} }}",
+                        {'group': 'roll radius / velocities', 'history': 'template looked at before the pass was built'})
+
+
 def run(chk):
     _ta.generate(chk)
     for f in ('C16_proofs.v', 'C16.v'):
@@ -256,6 +321,8 @@ def run(chk):
             run_group(chk, g, seen)
     if not chk.failures:
         reevaluation_chain(chk)
+    if not chk.failures:
+        looked_at_template(chk)
     chk.cov['distinct_nontrivial'] += len(seen)
     chk.cov['exhaustive'] = True
     chk.sample({'group': 'transport length/duration (velocity given)', 'supplied': ['length'], 'order': ['duration', 'length']})
